@@ -47,12 +47,13 @@ type cancelMon struct {
 	// start-window mode
 	nStarting atomic.Int64
 	starting  map[string]bool
-	first     atomic.Uintptr // frame of the first operation observed (the global frame)
-	atK       atomic.Uintptr // frame of operation k
+	heldG     map[string]bool // goroutines held in the start window
+	first     atomic.Uintptr  // frame of the first operation observed (the global frame)
+	atK       atomic.Uintptr  // frame of operation k
 }
 
 func newCancelMon(k int64) *cancelMon {
-	return &cancelMon{k: k, reached: make(chan struct{}), gate: make(chan struct{}), startGate: make(chan struct{}), starting: map[string]bool{}, postOps: map[string]int{}, ticks: map[string]int{}}
+	return &cancelMon{k: k, reached: make(chan struct{}), gate: make(chan struct{}), startGate: make(chan struct{}), starting: map[string]bool{}, heldG: map[string]bool{}, postOps: map[string]int{}, ticks: map[string]int{}}
 }
 
 func goid() string {
@@ -134,6 +135,10 @@ func (m *cancelMon) goStart(i *interp.Interpreter, stage int) {
 				return
 			}
 		}
+		g := goid()
+		m.mu.Lock()
+		m.heldG[g] = true
+		m.mu.Unlock()
 		m.startsHeld.Add(1)
 		<-m.startGate
 	case 2:
@@ -429,6 +434,22 @@ func runCancelAt(s *cancelSetup, k int64) (res cancelRun, setupErr error) {
 			time.Sleep(200 * time.Microsecond)
 		}
 		settle(2 * time.Second)
+	} else {
+		// every starting goroutine is at the hold point of this cell (not somewhere else in the window)
+		for dl := time.Now().Add(2 * time.Second); time.Now().Before(dl); {
+			m.mu.Lock()
+			all := true
+			for g := range m.starting {
+				if !m.heldG[g] {
+					all = false
+				}
+			}
+			m.mu.Unlock()
+			if all {
+				break
+			}
+			time.Sleep(200 * time.Microsecond)
+		}
 	}
 	res.Frozen = m.frozen.Load()
 	res.TopLevel = m.atK.Load() == m.first.Load()
